@@ -492,7 +492,7 @@ impl Envelope {
     /// assert_eq!(age.extract_subject::<i32>().unwrap(), 30);
     /// ```
     pub fn object_for_predicate(&self, predicate: impl EnvelopeEncodable) -> Result<Self> {
-        Ok(self.assertion_with_predicate(predicate)?.as_object().unwrap())
+        Ok(self.assertion_with_predicate(predicate)?.subject().as_object().unwrap())
     }
 
     /// Returns the envelope decoded as the given type.
@@ -673,7 +673,7 @@ impl Envelope {
     pub fn objects_for_predicate(&self, predicate: impl EnvelopeEncodable) -> Vec<Self> {
         self.assertions_with_predicate(predicate)
             .into_iter()
-            .map(|a| a.as_object().unwrap())
+            .map(|a| a.subject().as_object().unwrap())
             .collect()
     }
 
